@@ -78,7 +78,23 @@ def ctor(rng, clsname, multi=False):
     nm, args, kw = _ctor(rng, clsname, multi)
     if rng.random() < 0.2:
         kw = dict(kw, _layout=gen.LAYOUTS[rng.integers(len(gen.LAYOUTS))])
+    if nm == '' and clsname in ('SO2', 'SE2', 'SO3', 'SE3') and rng.random() < 0.25:
+        # check=False with a valid argument: the value test is skipped, the meaning of the argument (a translation vector, a set of
+        # translations, angles ...) is not; half the time a flat list of numbers is handed over as the equivalent 1-D array
+        kw = dict(kw, check=False)
+        if rng.random() < 0.5:
+            args = [np.array(a, dtype=np.float64) if isinstance(a, list) and a and all(isinstance(x, float) for x in a) else a for a in args]
     return nm, args, kw
+
+
+def _q4(rng):
+    """a 4-vector to be normalised: of any length, or (1 in 3) already of unit length -- a sequence then mixes both kinds"""
+    k = rng.integers(9)
+    if k == 0:
+        return np.eye(4)[rng.integers(4)] * gen.sign(rng)
+    if k < 3:
+        return gen.unit_quat(rng)
+    return gen.vec(rng, 4, 1e-3, 1e3)
 
 
 def _ctor(rng, clsname, multi=False):
@@ -95,9 +111,9 @@ def _ctor(rng, clsname, multi=False):
             # array / list forms that build a sequence
             if clsname == 'UnitQuaternion':
                 if k < 6:
-                    return '', [[gen.vec(rng, 4, 1e-3, 1e3) for _ in range(n)]], {}          # list of 4-vectors, normalised
+                    return '', [[_q4(rng) for _ in range(n)]], {}          # list of 4-vectors, normalised
                 if k < 8:
-                    return '', [np.array([gen.vec(rng, 4, 1e-3, 1e3) for _ in range(n)])], {}     # N x 4 array
+                    return '', [np.array([_q4(rng) for _ in range(n)])], {}     # N x 4 array
                 return 'Rand', [], {'N': n, '_seed': int(rng.integers(2 ** 31))}
             if k == 4:
                 return 'Eul', [np.array([_angs(rng, unit) for _ in range(n)])], {'unit': unit}
